@@ -27,7 +27,7 @@ package flate
 // inflOK: decoder state between calls of decomperss: the phase is one of the six, a stored block in progress is byte
 // aligned, header staging is empty outside header parsing, and no carried-over output is pending.
 //@ pure inflOK(s *inflate) bool = 0 <= s.phase && s.phase <= 5 && stBase(s) && 0 <= s.bitsLen && (s.phase == phaseLitBlock ==> s.bitsLen % 8 == 0 && 0 <= s.litBlockLength && s.litBlockLength <= 65535) && (s.phase != phaseDecodingHeader ==> s.headerBuffered == 0) && s.writeOverflowLen == 0 && s.copyOverflowLength == 0 && s.bfinal <= 1
-//@ pure rdBasic(f *decompressor) bool = 0 <= f.readPos && f.readPos <= f.writePos && f.writePos <= 65797 && f.rBuf != nil && brOK(f.rBuf) && 0 <= f.peekSize
+//@ pure rdBasic(f *decompressor) bool = 0 <= f.readPos && f.readPos <= f.writePos && f.writePos <= 65797 && f.rBuf != nil && brOK(f.rBuf) && 0 <= f.peekSize && tabsOK(&f.state)
 //@ pure inputOK(f *decompressor) bool = (f.state.input != nil ==> remBits(&f.state) <= 8*f.peekSize + 7 && f.peekSize <= f.rBuf.buffered) && (f.state.input == nil ==> int(f.state.bitsLen/8) <= f.rBuf.buffered)
 //@ pure errClass(e error) bool = e == nil || e == io.EOF || e == io.ErrUnexpectedEOF || iscorrupt(e) || (e == peekErr && e != bufio.ErrBufferFull)
 //@ pure rdOK(f *decompressor) bool = rdBasic(f) && (f.err == nil ==> inflOK(&f.state) && inputOK(f))
@@ -42,24 +42,57 @@ package flate
 //@ func (*decompressor).Reset
 //@   params r, under, dict -> err
 //@   requires r.rBuf != nil ==> brOK(r.rBuf)
+//@   requires tabsOK(&r.state)
 //@   requires typeis(under, *bufio.Reader) ==> brOK(under.(*bufio.Reader))
 //@   modifies *r, *r.rBuf
 //@   ensures[C13 fresh] rdFresh(r) && err == nil
 //@   ensures[C05 C13 src-direct] typeis(under, *bufio.Reader) ==> r.rBuf == under.(*bufio.Reader)
 
-//@ func decodeHuffman
-//@   trusted "not yet verified: Huffman block decoding loop (decodeHuffmanLargeLoop) and, at acceleration level 3+, the assembly decoder"
-//@   requires stBase(state) && state.bitsLen >= 0 && state.phase == phaseHeaderDecoded && 0 <= written && written <= len(output) && len(output) == 65536 && state.input != nil && state.bfinal <= 1
+//@ pure dhPre(state *inflate, output []byte, written int) bool = state != nil && stBase(state) && state.bitsLen >= 0 && state.phase == phaseHeaderDecoded && 0 <= written && written <= len(output) && len(output) == 65536 && state.input != nil && state.bfinal <= 1 && state.writeOverflowLen == 0 && tabsOK(state)
+
+//@ func decodeHuffmanLargeLoop
+//@   requires dhPre(state, output, written)
 //@   modifies state.bits, state.bitsLen, state.input, state.phase, state.writeOverflowLits, state.writeOverflowLen, state.copyOverflowLength, state.copyOverflowDistance, output[*]
-//@   ensures err == nil || err == errEndInput || err == errOutputOverflow || err == errInvalidSymbol || err == errInvalidLookBack || err == errInvalidBlock
-//@   ensures written <= w && w <= len(output)
-//@   ensures err == nil ==> (state.bfinal == 1 ==> state.phase == phaseStreamEnd) && (state.bfinal != 1 ==> state.phase == phaseNewBlock)
-//@   ensures err != nil ==> state.phase == phaseHeaderDecoded || (err == errOutputOverflow && ((state.bfinal == 1 && state.phase == phaseStreamEnd) || (state.bfinal != 1 && state.phase == phaseNewBlock)))
-//@   ensures 0 <= state.writeOverflowLen && state.writeOverflowLen <= 3 && 0 <= state.copyOverflowLength && state.copyOverflowLength <= 257 && (state.copyOverflowLength > 0 ==> 1 <= state.copyOverflowDistance && int(state.copyOverflowDistance) <= w && w == len(output))
-//@   ensures err != errOutputOverflow ==> state.writeOverflowLen == 0 && state.copyOverflowLength == 0
-//@   ensures err == errEndInput ==> len(state.input) == 0
-//@   ensures 0 <= state.bitsLen && state.bitsLen <= 64 && (isInvalid(err) || stBase(state)) && len(state.input) <= old(len(state.input)) && sameobj(state.input, old(state.input)) && state.input != nil
-//@   ensures remBits(state) <= old(remBits(state))
+//@   ensures[C03 classify] err == nil || err == errEndInput || err == errOutputOverflow || err == errInvalidSymbol || err == errInvalidLookBack
+//@   ensures[C02 C03 written] written <= finalWritten && finalWritten <= len(output)
+//@   ensures[C02 phase] err == nil ==> (state.bfinal == 1 ==> state.phase == phaseStreamEnd) && (state.bfinal != 1 ==> state.phase == phaseNewBlock)
+//@   ensures[C02 phase-err] state.phase == phaseHeaderDecoded || (state.bfinal == 1 && state.phase == phaseStreamEnd) || (state.bfinal != 1 && state.phase == phaseNewBlock)
+//@   ensures[C02 C03 carry-range] 0 <= state.writeOverflowLen && state.writeOverflowLen <= 3 && 0 <= state.copyOverflowLength && state.copyOverflowLength <= 258 && (state.copyOverflowLength > 0 ==> 1 <= state.copyOverflowDistance && int(state.copyOverflowDistance) <= finalWritten && finalWritten == len(output))
+//@   ensures[C02 carry-only-on-overflow] err == nil || err == errEndInput ==> state.writeOverflowLen == 0 && state.copyOverflowLength == 0
+//@   ensures[C04 end-input-drained] err == errEndInput ==> len(state.input) == 0
+//@   ensures[C03 bits] 0 <= state.bitsLen && state.bitsLen <= 64 && stBase(state) && len(state.input) <= old(len(state.input)) && sameobj(state.input, old(state.input)) && state.input != nil
+//@   ensures[C04 C05 accounting] remBits(state) <= old(remBits(state))
+//@   assert call LeadingZeros64 1 [C02 carry-repr] err == errOutputOverflow && state.writeOverflowLen > 0 && nextLits >= 256 ==> uint32(state.writeOverflowLits) >> (8*uint32(state.writeOverflowLen)) == nextLits
+//@   loop 1 invariant 0 <= bitsLen && bitsLen <= 64 && sameobj(input, old(state.input)) && len(input) <= old(len(state.input)) && input != nil && old(written) <= written && written <= len(output) && 8*len(input) + int(bitsLen) <= old(remBits(state)) && err == nil && state.copyOverflowLength == 0 && (state.phase == phaseHeaderDecoded || (state.bfinal == 1 && state.phase == phaseStreamEnd) || (state.bfinal != 1 && state.phase == phaseNewBlock)) && state.writeOverflowLen == 0
+//@   loop 2 invariant -1 <= rangeindex && rangeindex < size && 0 <= size && size <= 8 && size <= len(input) && 0 <= atentry(bitsLen) && 8*size <= 64 - int(atentry(bitsLen)) && bitsLen == atentry(bitsLen) + int32(8*(rangeindex+1))
+//@   loop 3 invariant -1 <= rangeindex && rangeindex < size && 0 <= size && size <= 8 && size <= len(input) && 0 <= atentry(bitsLen) && 8*size <= 64 - int(atentry(bitsLen)) && bitsLen == atentry(bitsLen) + int32(8*(rangeindex+1))
+//@   loop 4 invariant 0 <= bitsLen && bitsLen <= 64 && sameobj(input, old(state.input)) && len(input) <= old(len(state.input)) && input != nil && old(written) <= written && written <= len(output) && 8*len(input) + int(bitsLen) <= old(remBits(state)) && err == nil && state.copyOverflowLength == 0 && (state.phase == phaseHeaderDecoded || (state.bfinal == 1 && state.phase == phaseStreamEnd) || (state.bfinal != 1 && state.phase == phaseNewBlock))
+//@   loop 4 invariant symCount <= 3 && (symCount >= 1 ==> nextLits >> (8*(symCount-1)) <= 1023) && 0 <= state.writeOverflowLen && state.writeOverflowLen <= 3 && (state.writeOverflowLen != 0 ==> written == len(output) && symCount == 1 && nextLits > 256 && uint32(state.writeOverflowLits) >> (8*uint32(state.writeOverflowLen)) == nextLits)
+//@   loop 4 invariant 0 <= bitsLenTemp && bitsLenTemp <= 64 && sameobj(inputTemp, old(state.input)) && len(inputTemp) <= old(len(state.input)) && inputTemp != nil && 8*len(inputTemp) + int(bitsLenTemp) <= old(remBits(state)) && old(written) <= writtenTemp && writtenTemp <= len(output) && (len(inputTemp) != 0 ==> bitsLenTemp >= 57) && (symCount >= 1 ==> int(bitsLen) >= int(bitsLenTemp) - 15)
+//@   loop 5 invariant -1 <= rangeindex && rangeindex < size && 0 <= size && size <= 8 && size <= len(input) && 0 <= atentry(bitsLen) && 8*size <= 64 - int(atentry(bitsLen)) && bitsLen == atentry(bitsLen) + int32(8*(rangeindex+1))
+//@   loop 6 invariant -1 <= rangeindex && rangeindex < size && 0 <= size && size <= 8 && size <= len(input) && 0 <= atentry(bitsLen) && 8*size <= 64 - int(atentry(bitsLen)) && bitsLen == atentry(bitsLen) + int32(8*(rangeindex+1))
+
+//@ func decodeHuffmanAsmArchV3
+//@   trusted "assembly (decode_amd64.s): the set of errno values is established by the asmreturns dataflow; everything else about the routine is assumed"
+//@   asmreturns errno in 0 1 2 -1 -2 -3 except 1
+//@   requires state != nil && stBase(state) && state.bitsLen >= 0 && 0 <= offset && offset <= len(output) && len(state.input) >= 8 && cap(output) >= len(output) + 274 && tabsOK(state)
+//@   modifies state.bits, state.bitsLen, state.input, state.writeOverflowLits, state.writeOverflowLen, state.copyOverflowLength, state.copyOverflowDistance, output[:len(output)+274][*]
+//@   ensures offset <= written && written <= len(output) + 274
+//@   ensures 0 <= state.bitsLen && state.bitsLen <= 64 && len(state.input) <= old(len(state.input)) && sameobj(state.input, old(state.input)) && state.input != nil && remBits(state) <= old(remBits(state))
+//@   ensures state.writeOverflowLen == 0 && state.copyOverflowLength == 0
+
+//@ func decodeHuffman
+//@   requires dhPre(state, output, written)
+//@   modifies state.bits, state.bitsLen, state.input, state.phase, state.writeOverflowLits, state.writeOverflowLen, state.copyOverflowLength, state.copyOverflowDistance, output[*]
+//@   ensures[C03 classify] err == nil || err == errEndInput || err == errOutputOverflow || err == errInvalidSymbol || err == errInvalidLookBack || err == errInvalidBlock
+//@   ensures[C02 C03 written] written <= w && w <= len(output)
+//@   ensures[C02 C18 phase] err == nil ==> (state.bfinal == 1 ==> state.phase == phaseStreamEnd) && (state.bfinal != 1 ==> state.phase == phaseNewBlock)
+//@   ensures[C02 phase-err] state.phase == phaseHeaderDecoded || (state.bfinal == 1 && state.phase == phaseStreamEnd) || (state.bfinal != 1 && state.phase == phaseNewBlock)
+//@   ensures[C02 C03 carry-range] 0 <= state.writeOverflowLen && state.writeOverflowLen <= 3 && 0 <= state.copyOverflowLength && state.copyOverflowLength <= 258 && (state.copyOverflowLength > 0 ==> 1 <= state.copyOverflowDistance && int(state.copyOverflowDistance) <= w && w == len(output))
+//@   ensures[C02 carry-only-on-overflow] err == nil || err == errEndInput ==> state.writeOverflowLen == 0 && state.copyOverflowLength == 0
+//@   ensures[C04 end-input-drained] err == errEndInput ==> len(state.input) == 0
+//@   ensures[C03 bits] 0 <= state.bitsLen && state.bitsLen <= 64 && stBase(state) && len(state.input) <= old(len(state.input)) && sameobj(state.input, old(state.input)) && state.input != nil
+//@   ensures[C04 C05 accounting] remBits(state) <= old(remBits(state))
 
 //@ func byteCopy
 //@   trusted "not yet verified (the periodicity argument of the doubling overlapped copy needs modular reasoning the solvers do not finish): LZ77 copy of length bytes from distance dist"
@@ -72,6 +105,7 @@ package flate
 //@   requires rdBasic(f) && inflOK(&f.state) && f.state.input != nil && f.writePos == f.readPos && f.readPos < 65536 && f.state.phase != phaseFinish
 //@   modifies f.state, f.writePos, f.historyBuffer
 //@   ensures[C03 C04 pos] f.readPos <= f.writePos && f.writePos <= 65797 && same(f.readPos)
+//@   ensures[C02 C03 tables] tabsOK(&f.state)
 //@   ensures[C03 classify] err == nil || isSentinel(err)
 //@   ensures[C03 eof-only-final] err == nil ==> f.state.phase == phaseStreamEnd
 //@   ensures[C04 end-input-drained] err == errEndInput ==> len(f.state.input) == 0
@@ -79,12 +113,13 @@ package flate
 //@   ensures[C03 C04 state-inv] isInvalid(err) || inflOK(&f.state)
 //@   ensures[C03 discard-bound] -8 < f.state.bitsLen && f.state.bitsLen <= 64
 //@   ensures f.state.input != nil && len(f.state.input) <= old(len(f.state.input)) && remBits(&f.state) <= old(remBits(&f.state))
-//@   loop 1 invariant 0 <= idx && idx <= 65536 && idx >= f.writePos && same(f.writePos) && same(f.readPos) && f.state.input != nil && len(f.state.input) <= old(len(f.state.input)) && sameobj(f.state.input, old(f.state.input)) && remBits(&f.state) <= old(remBits(&f.state)) && err == nil && inflOK(&f.state) && f.state.phase != phaseFinish && len(output) == 65536 && sameobj(output, f.historyBuffer[:])
+//@   loop 1 invariant 0 <= idx && idx <= 65536 && idx >= f.writePos && same(f.writePos) && same(f.readPos) && f.state.input != nil && len(f.state.input) <= old(len(f.state.input)) && sameobj(f.state.input, old(f.state.input)) && remBits(&f.state) <= old(remBits(&f.state)) && err == nil && inflOK(&f.state) && tabsOK(&f.state) && f.state.phase != phaseFinish && len(output) == 65536 && sameobj(output, f.historyBuffer[:])
 
 //@ func (*decompressor).step
 //@   requires rdOK(f) && f.writePos == f.readPos && f.err == nil
 //@   modifies f.state, f.writePos, f.readPos, f.historyBuffer, f.peekSize, f.eof, f.needInput, *f.rBuf, extReads, peekErr
 //@   ensures[C03 C04 inv] rdBasic(f) && f.readPos <= f.writePos && (err == nil ==> inflOK(&f.state) && inputOK(f))
+//@   assert call rOffset 1 [C11 need-iff-starved] f.needInput == (err == errEndInput)
 //@   ensures[C11 no-demand] !old(f.needInput) && old(f.state.input) == nil && int(old(f.state.bitsLen)/8) <= old(f.rBuf.buffered) ==> extReads == old(extReads)
 //@   ensures[C03 classify] errClass(err)
 //@   ensures[C03 eof-only-final] err == io.EOF ==> f.state.phase == phaseFinish && f.writePos == f.readPos
@@ -136,6 +171,7 @@ package flate
 //@ func (*inflate).setupStaticHeader
 //@   modifies state.litLenTable, state.distTable, state.phase
 //@   ensures[C02 btype] state.phase == phaseHeaderDecoded
+//@   ensures[C02 C03 tables] tabsOK(state)
 
 //@ func (*inflate).readLitDistLens
 //@   trusted "not yet verified: code length decoding (RFC 1951 3.2.7) into the lit/len and distance length arrays"
@@ -161,7 +197,9 @@ package flate
 
 //@ func (*smallHuffCodeTable).genForDists
 //@   trusted "not yet verified: distance decoding table construction"
+//@   requires distTabOK(t)
 //@   modifies *t, codes[*]
+//@   ensures distTabOK(t)
 
 //@ func (*dynamicHeaderReader).setAndExpandLitLenHuffCode
 //@   trusted "not yet verified: lit/len code expansion with over-subscription check"
@@ -171,9 +209,11 @@ package flate
 //@ func (*largeHuffCodeTable).genForLitLen
 //@   trusted "not yet verified: multi-symbol lit/len decoding table construction"
 //@   modifies *t, *ctx
+//@   ensures litTabOK(t)
 
 //@ func (*inflate).setupDynamicHeader
-//@   requires stBase(state) && state.bitsLen >= 0
+//@   requires stBase(state) && state.bitsLen >= 0 && tabsOK(state)
+//@   ensures[C02 C03 tables] tabsOK(state)
 //@   modifies state.bits, state.bitsLen, state.input, state.dynHdr, state.distTable, state.litLenTable, state.phase
 //@   ensures[C03 classify] result == nil || result == errEndInput || result == errInvalidBlock
 //@   ensures[C02 btype] result == nil ==> state.phase == phaseHeaderDecoded && state.bitsLen >= 0
@@ -182,7 +222,8 @@ package flate
 //@   ensures stBase(state) && remBits(state) <= old(remBits(state)) && len(state.input) <= old(len(state.input)) && sameobj(state.input, old(state.input)) && (state.input == nil) == (old(state.input) == nil)
 
 //@ func (*inflate).tryDecodeHeader
-//@   requires stBase(state) && state.bitsLen >= 0
+//@   requires stBase(state) && state.bitsLen >= 0 && tabsOK(state)
+//@   ensures[C02 C03 tables] tabsOK(state)
 //@   modifies state.bits, state.bitsLen, state.input, state.bfinal, state.litBlockLength, state.phase, state.dynHdr, state.distTable, state.litLenTable
 //@   ensures[C03 classify] err == nil || err == errEndInput || err == errInvalidBlock
 //@   ensures[C02 C03 btype] err == nil ==> (state.phase == phaseLitBlock || state.phase == phaseHeaderDecoded) && state.bitsLen >= 0
@@ -194,7 +235,8 @@ package flate
 //@   assumes old(state.phase) == phaseDecodingHeader && old(int(state.headerBuffered)) <= old(len(state.input)) ==> old(len(state.input)) - len(state.input) >= old(int(state.headerBuffered)) && old(remBits(state)) - remBits(state) >= 8*old(int(state.headerBuffered))
 
 //@ func (*inflate).readHeader
-//@   requires stBase(state) && state.bitsLen >= 0 && (state.phase == phaseNewBlock || state.phase == phaseDecodingHeader) && (state.phase == phaseNewBlock ==> state.headerBuffered == 0) && state.input != nil
+//@   requires stBase(state) && state.bitsLen >= 0 && (state.phase == phaseNewBlock || state.phase == phaseDecodingHeader) && (state.phase == phaseNewBlock ==> state.headerBuffered == 0) && state.input != nil && tabsOK(state)
+//@   ensures[C02 C03 tables] tabsOK(state)
 //@   modifies state.bits, state.bitsLen, state.input, state.bfinal, state.litBlockLength, state.phase, state.dynHdr, state.distTable, state.litLenTable, state.headerBuffered, state.headerBuffer
 //@   ensures[C03 classify] err == nil || err == errEndInput || err == errInvalidBlock
 //@   ensures[C02 C03 btype] err == nil ==> state.phase == phaseLitBlock || state.phase == phaseHeaderDecoded
@@ -217,3 +259,23 @@ package flate
 //@   ensures stBase(state) && state.bitsLen % 8 == 0 && 0 <= state.bitsLen && len(state.input) <= old(len(state.input)) && sameobj(state.input, old(state.input)) && state.input != nil
 //@   ensures forall k :: 0 <= k && k < written ==> output[k] == old(output[k])
 //@   loop 1 invariant 0 <= count && count <= length && (state.bitsLen != 0 ==> count < length) && written == old(written) + count && 0 <= length && old(written) + length <= len(output) && length <= old(state.litBlockLength) && state.litBlockLength == old(state.litBlockLength) - length && length <= int(old(state.bitsLen)/8) + len(state.input) && state.bitsLen == old(state.bitsLen) - int32(8*count) && state.bitsLen % 8 == 0 && 0 <= state.bitsLen && state.bitsLen <= 64 && same(state.input) && (err == nil || err == errEndInput || err == errOutputOverflow) && (err == nil ==> length == old(state.litBlockLength) && (state.bfinal != 0 ==> state.phase == phaseStreamEnd) && (state.bfinal == 0 ==> state.phase == phaseNewBlock)) && (err != nil ==> state.phase == phaseLitBlock) && (err == errEndInput ==> length == int(old(state.bitsLen)/8) + len(state.input)) && (forall k :: 0 <= k && k < old(written) ==> output[k] == old(output[k]))
+
+// ---------------------------------------------------------------------------
+// package-level tables (proved from the package initializer)
+// ---------------------------------------------------------------------------
+
+// Well-formedness of the two-level decoding tables, as far as the decode loop's memory safety depends on it: an
+// entry of the short table that points into the long table (flag set) names a sub-table that lies inside the
+// long table, and a direct lit/len entry that consumes bits packs at least one symbol, the last of which fits in
+// ten bits (the others are literals of eight bits each); no entry consumes more than 15 bits, and an entry that
+// consumes none (an unassigned code) holds the number of bits (at most 15) that decided it.
+//@ pure litEntOK(e uint32) bool = (e & largeFlagBit != 0 ==> 12 <= e>>26 && e>>26 <= 15 && int(e & largeShortSymMask) + (1 << (e>>26 - 12)) <= 1264) && (e & largeFlagBit == 0 && e>>28 != 0 ==> (e>>26)&3 >= 1 && (e & largeShortSymMask) >> (8*((e>>26)&3 - 1)) <= 1023)
+//@ pure distEntOK(e uint16) bool = (e & smallFlagBit != 0 ==> 10 <= (e-1024)>>11 && (e-1024)>>11 <= 15 && int(e & 511) + (1 << ((e-1024)>>11 - 10)) <= 80) && (e & smallFlagBit == 0 ==> e>>11 <= 15 && (e>>11 == 0 ==> e <= 15))
+//@ pure distLongOK(e uint16) bool = e>>10 <= 15 && (e>>10 == 0 ==> e <= 15)
+//@ pure litTabOK(t *largeHuffCodeTable) bool = (forall i :: 0 <= i && i < 4096 ==> litEntOK(t.shortCodeLookup[i])) && (forall k :: 0 <= k && k < 1264 ==> t.longCodeLookup[k]>>10 <= 15)
+//@ pure distTabOK(t *smallHuffCodeTable) bool = (forall j :: 0 <= j && j < 1024 ==> distEntOK(t.ShortCodeLookup[j])) && (forall k :: 0 <= k && k < 80 ==> distLongOK(t.LongCodeLookup[k]))
+//@ pure tabsOK(s *inflate) bool = litTabOK(&s.litLenTable) && distTabOK(&s.distTable)
+
+//@ globalinv[C02 C03 static-lit-table] litTabOK(&staticLitHuffCode)
+//@ globalinv[C02 C03 static-dist-table] distTabOK(&staticDistHuffCode)
+//@ globalinv[C02 C03 rfc-dist] forall d :: 0 <= d && d < 30 ==> rfcLookupTable.DistExtraBitCount[d] <= 13 && rfcLookupTable.DistStart[d] >= 1 && int(rfcLookupTable.DistStart[d]) + (1 << uint(rfcLookupTable.DistExtraBitCount[d])) <= 32769
